@@ -9,14 +9,14 @@ import (
 
 const RaceEnabled = true
 
-func raceDisable()                    { runtime.RaceDisable() }
-func raceEnable()                     { runtime.RaceEnable() }
-func raceAcquire(p *int)              { runtime.RaceAcquire(unsafe.Pointer(p)) }
-func raceRelease(p *int)              { runtime.RaceRelease(unsafe.Pointer(p)) }
-func raceReleaseMerge(p *int)         { runtime.RaceReleaseMerge(unsafe.Pointer(p)) }
-func RaceErrors() int                 { return runtime.RaceErrors() }
+func raceDisable()                      { runtime.RaceDisable() }
+func raceEnable()                       { runtime.RaceEnable() }
+func raceAcquire(p *int)                { runtime.RaceAcquire(unsafe.Pointer(p)) }
+func raceRelease(p *int)                { runtime.RaceRelease(unsafe.Pointer(p)) }
+func raceReleaseMerge(p *int)           { runtime.RaceReleaseMerge(unsafe.Pointer(p)) }
+func RaceErrors() int                   { return runtime.RaceErrors() }
 func RaceAcquire(p unsafe.Pointer)      { runtime.RaceAcquire(p) }
 func RaceRelease(p unsafe.Pointer)      { runtime.RaceRelease(p) }
 func RaceReleaseMerge(p unsafe.Pointer) { runtime.RaceReleaseMerge(p) }
-func RaceDisable()                    { runtime.RaceDisable() }
-func RaceEnable()                     { runtime.RaceEnable() }
+func RaceDisable()                      { runtime.RaceDisable() }
+func RaceEnable()                       { runtime.RaceEnable() }
